@@ -7,9 +7,66 @@ props = [json.loads(l)["id"] for l in open(os.path.join(HERE, "properties.jsonl"
 
 # id -> (category, technique, level text, level note, design ref)
 CLAIMS = {
+ "C01": ("exploration", "process-level monitor (spawned CLI binaries, byte-exact stdout/stderr/exit capture, JSON stream oracle) + in-process fd-1 capture + differential against the library model",
+         "hulc2model and thor are run as processes on the 12 shipped and on harness-written project directories x {default, --use-extra} x RUST_LOG settings; stdout must be exactly one JSON value that loads to the library's model (field-complete Debug equality); directories without project must exit non-zero without JSON; bytes reaching fd 1 during library calls are counted in-process. Held on the runs observed.",
+         "trusted: serde_json's stream deserialiser as JSON oracle, the harness's printers; binaries rebuilt from /repo by ./check (dev profile; thorough also release)", "DESIGN.md §5 C01"),
+ "C02": ("exploration", "invariant monitor (own closure walk over every converted model) under reference-breaking text edits; panic-site capture",
+         "Every shipped and generated project, and each of them with one referenced definition renamed/removed in the text, is converted; any Ok(model) must pass the harness's own 14-link closure walk and bemodel::check; panics are violations. Held on the conversions observed.",
+         "trusted: the harness's link walker and independent BDL block reader", "DESIGN.md §5 C02"),
+ "C03": ("exploration", "reference-model monitor (DOE-2 nesting in f64 from the source text via an independent reader) + metamorphic turn relation",
+         "Corner points of every wall, window and shade of every convertible real project and of generated buildings (turned and offset spaces, own-polygon elements, odd storey heights) are compared with points computed from the text; each project is re-converted with an angle added to its deviation. Held on the projects observed (max deviation on the corpus: 2 mm).",
+         "trusted: the DOE-2 nesting convention as documented in wall_geometry's header and BDL topics; the harness's reader", "DESIGN.md §5 C03"),
+ "C04": ("exploration", "differential round-trip monitor with a per-field default/non-default coverage matrix",
+         "Generated models force each of 62 defaultable fields into both states (the run fails if a field is not seen in both); as_json/from_json must preserve every field (Debug text), re-serialise identically, omit default sections; shipped files must re-serialise to the same JSON value. Held on the models observed.",
+         "trusted: derived Debug prints every field; -0.0 == 0.0", "DESIGN.md §5 C04"),
+ "C05": ("exploration", "differential monitors: repeat / fresh process / 16 threads behind a barrier / id locality / A-before-B history pairs / table fingerprints / reference pairs",
+         "Byte-identical export across repeats, fresh processes (varied environment) and threads; ids unchanged when unrelated definitions are appended; indicators of B independent of A computed before (incl. variants sharing ids); climate tables unchanged; 6 reference pairs equal as JSON values. Held on the schedules and histories observed; the number of distinct thread interleavings seen is reported.",
+         "trusted: md5 as fingerprint; the helper process links the same library", "DESIGN.md §5 C05"),
+ "C06": ("exploration", "reference-model monitor (interval-valued f64 re-computation of EN ISO 6946/13370/13789) + metamorphic monotonicity",
+         "Every wall of generated models (all formula branches, floor on branch coverage) and of all real models is compared with an interval reference that propagates the documented intermediate roundings; added/thickened layers must not raise U; missing constructions/materials give None. Held on the walls observed.",
+         "trusted: the harness's f64 formulas; the code base's documented modelling choices for P, B', d_t are the definition", "DESIGN.md §5 C06"),
  "C07": ("exploration", "reference-model monitor over generated window constructions (closed formula oracle at the API boundary)",
          "Every generated window construction (frame fraction 0..1, dU 0..50, present/nil/dangling glazing and frame, optional shading factor) is observed through WinCons::u_value/g_glwi/g_glshwi, EnergyIndicators.props.wincons and K_data and compared with the closed formulas; held on the executions observed, nothing more.",
          "trusted: the harness's f64 formulas; 2-decimal rounding admits +-0.0051", "DESIGN.md §5 C07"),
+ "C08": ("exploration", "reference-model monitor (own aggregation over own envelope rule) + metamorphic reorder/rename/re-id relation",
+         "K_data of generated (incl. fully glazed walls, overrides, default U, all bridge kinds) and real models is compared field by field with the harness's own sums; reordering and re-identifying elements must not change K. Held on the models observed.",
+         "per-element U as reported in props (judged by C06/C07)", "DESIGN.md §5 C08"),
+ "C09": ("exploration", "reference-model monitor (own DB-HE formula, identity check for the blower-door branch)",
+         "n50_data of generated (with/without test value, missing window constructions, zero volume / zero wall area) and real models against the harness's own formula. Held on the models observed.",
+         "net areas as reported (checked in C08); V checked against own net volume", "DESIGN.md §5 C09"),
+ "C10": ("exploration", "reference-model monitor (own sum, own sector table, table lookup by the harness) over all 32 zones",
+         "q_soljul_data (totals, means, per-orientation breakdown, finiteness without windows / without reference area) of generated models x 32 zones and real models. Held on the models observed.",
+         "F_sh,obst and g_gl;sh;wi per element as reported (judged by C12/C07)", "DESIGN.md §5 C10"),
+ "C11": ("exploration", "reference-model monitor for the aggregates + metamorphic scaling + sweep of the angle classifiers over every f32 in [-720,1080] (thorough)",
+         "A_ref, volumes, compactness, envelope membership, ventilation rate used vs reported on generated and real models; scaling relation; Tilt/Orientation classifiers compared with the exact residue mod 360 and with every representable angle+360k for all 2.29e9 floats in range (thorough; quick = stride over the same ordered space), parser vs model for every tilt in [0,360].",
+         "2-decimal aggregates admit +-0.0056; 2 ulp(360) ambiguity band at class boundaries", "DESIGN.md §5 C11"),
+ "C12": ("exploration", "reference-model monitor (exact f64 ray casting of the implementation's own sample points against first-principles obstacles and reveal quads) + metamorphic monotonicity; BVH path counters from the cfg-guarded hook",
+         "Every window's f_shobst of generated (<=30 and >30 obstacles, roofs, set-back windows, elements without position) and real models against the exact reference; adding an obstacle never raises a factor; enclosed window = diffuse share; unobstructed >= 0.97. Held on the windows observed; evidence reports which BVH build paths were driven.",
+         "plane irradiances from climate::radiation_for_surface (C20); sample points are the implementation's own", "DESIGN.md §5 C12"),
+ "C13": ("exploration", "differential monitor (BVH vs exhaustive loop, instrumented element with a logical step budget) + exact-geometry reference for ray/polygon, bounding boxes and reveal surfaces",
+         "Obstacle sets of size 0..200 in 6 families x leaf sizes x 64 rays; real occluders of generated models; 3..12-corner polygons in random poses against an exact winding-number test; reveal quads of set-back windows on walls of any pose. Held on the sets, poses and rays observed.",
+         "1 mm / grazing ambiguity band; non-termination decided on aabb() call counts and the hook's node bound, not on time", "DESIGN.md §5 C13"),
+ "C14": ("exploration", "totality monitor: catch_unwind with panic-site capture, CPU-budget and node-bound hang detection, poisoned-table probe, periodic baseline recomputation, finiteness scan",
+         "1..3 structural JSON edits of shipped/converted/generated models, editor-style growth from the empty model, special degenerate families; each computed in a monitored worker; for inputs the harness finds closed and sane every number must be finite and the result must load back. Held on the models observed.",
+         "saneness decided by the harness; wall-clock watchdog firings are inconclusive, CPU-budget overruns are hang verdicts", "DESIGN.md §5 C14"),
+ "C15": ("exploration", "reference-model monitor (expected multiset of warning ids from the harness's own link walk)",
+         "Generated models with random subsets of the five link kinds broken (nil or absent ids, also on non-interior walls) and bridge lengths negated, closed models and real models; check() must report exactly those, not modify the model, and equal energy_indicators().warnings. Held on the models observed.",
+         "links outside the statement's list are left intact", "DESIGN.md §5 C15"),
+ "C16": ("exploration", "reference-model monitor (own reachability filter, order included) + idempotence + indicator invariance",
+         "Generated models with unused items of every kind, one-call removable chains, spaces known only as neighbours, tiny bridge lengths, and real models; id lists after purge_unused against the reference; purge twice = once; no new broken link; A_ref, volumes, K, n50, q_sol;jul unchanged. Held on the models observed.",
+         "override entries of removed elements are outside the statement", "DESIGN.md §5 C16"),
+ "C17": ("exploration", "reference-model monitor (own calendar, own weekday expansion, own occupancy/load means)",
+         "Yearly schedule expansion; conversion of harness-printed SCHEDULE-PD for all 365 end dates and random date lists, WEEK-SCHEDULE-PD incl. weeks where Monday's schedule reappears, DAY-SCHEDULE-PD with 24/1 values; occupied hours and mean load on generated and real models. Held on the schedules and models observed.",
+         "weekly schedules not covering 7 days are outside the statement", "DESIGN.md §5 C17"),
+ "C18": ("exploration", "print-parse monitor (abstract documents -> random layouts -> parsers) + typed-element comparison + layout invariance on the 68 real files",
+         "Random block documents and whole buildings printed in random layouts must be recovered attribute by attribute by build_blocks and field by field by Data::new; real files re-printed from their parsed blocks must parse to the same Data; KyG (old/new layout, both decimal separators) and tbl printers against their parsers. Held on the documents observed.",
+         "grammar = what HULC/LIDER emit (quoted names, no '..' in names, value on the key's line)", "DESIGN.md §5 C18"),
+ "C19": ("fault_enumeration", "fault enumeration: every single-edit corruption addressed by (file, line, edit kind); panic-site capture; CPU-budget hang verdicts",
+         "Thorough enumerates every line of every shipped project/result file x 9 edit kinds (exhaustive over that finite space); quick takes a seeded slice. Each damaged file must be converted or rejected with an error; panics (deduplicated by file+function+message class) and CPU-budget overruns are violations.",
+         "single edits only; catalogue parsed once per worker", "DESIGN.md §5 C19"),
+ "C20": ("exploration", "reference-model monitor (spherical astronomy, own calendar) + radiation identities over the shipped weather file + table consistency",
+         "All 365 dates; sun position on a latitude x declination x hour-angle grid (quick 1 degree, thorough 0.5 degree) as great-circle error; incidence angles against the model's own normal; horizontal/downward identities over all 8760 hours and random inputs; 32 zones x 9 orientations x 12 months and 14 July rows; D3 tables against the radiation model over zonaD3.met. Held on the points observed.",
+         "hour angle positive before noon, azimuth from south east-positive; tables of the 31 zones without weather file checked for presence/shape/sign only", "DESIGN.md §5 C20"),
 }
 NOT_BUILT = "check not built yet (framework phase in progress); it will be claimed once its monitor exists"
 
